@@ -4,6 +4,9 @@ use std::fmt::Write as _;
 /// HIR -> mini-HIR projection shared by C22, C23, C12 (DESIGN Appendix A.2)
 pub mod minihir;
 
+/// multi-module project descriptions, generator and materialisation shared by C20 and C19
+pub mod multimod;
+
 /// splitmix64: every random choice of a run derives from one state seeded by VERIF_SEED.
 #[derive(Clone)]
 pub struct Rng(pub u64);
